@@ -34,6 +34,20 @@ fn main() {
         dens::child(&args[2..]);
         return;
     }
+    if cmd == "ih-eval" {
+        // `pmh_harness ih-eval <64|32> <x decimal>`: the four values the C19 property speaks about, on the real functions
+        use probminhash::invhash::*;
+        let x: u64 = args[3].parse().unwrap();
+        if args[2] == "64" {
+            println!("{{\"width\":64,\"x\":\"{:016x}\",\"hash\":\"{:016x}\",\"inverse\":\"{:016x}\",\"inverse_of_hash\":\"{:016x}\",\"hash_of_inverse\":\"{:016x}\"}}",
+                x, int64_hash(x), int64_hash_inverse(x), int64_hash_inverse(int64_hash(x)), int64_hash(int64_hash_inverse(x)));
+        } else {
+            let x = x as u32;
+            println!("{{\"width\":32,\"x\":\"{:08x}\",\"hash\":\"{:08x}\",\"inverse\":\"{:08x}\",\"inverse_of_hash\":\"{:08x}\",\"hash_of_inverse\":\"{:08x}\"}}",
+                x, int32_hash(x), int32_hash_inverse(x), int32_hash_inverse(int32_hash(x)), int32_hash(int32_hash_inverse(x)));
+        }
+        return;
+    }
     if cmd == "child-sig" {
         c18::child(&args[2..]);
         return;
